@@ -661,6 +661,7 @@ func workerEnv(eng *props.Engine, w int) []string {
 
 var driverHooks = map[string]func(eng *props.Engine, tier string, seed uint64, runs int, agg *doneRec) ([]*violRec, error){
 	"C06": crossProcessDigests,
+	"C18": crossProcessDigests,
 }
 
 // crossProcessDigests re-executes a prefix of the batch in fresh processes (at GOMAXPROCS 1, 4 and 16)
@@ -670,6 +671,9 @@ func crossProcessDigests(eng *props.Engine, tier string, seed uint64, runs int, 
 	n := 160
 	if tier == "thorough" {
 		n = 4000
+	}
+	if eng.Race {
+		n /= 2 // the race-detector build is several times slower
 	}
 	// only runs the workers finished (they may have stopped on the wall clock)
 	have := 0
@@ -700,9 +704,12 @@ func crossProcessDigests(eng *props.Engine, tier string, seed uint64, runs int, 
 				lo, hi := n*c/chunks, n*(c+1)/chunks
 				cmd := exec.Command(self, "digest", eng.Prop, tier, fmt.Sprint(seed), fmt.Sprint(hi), fmt.Sprint(lo), "sut")
 				cmd.Env = append(os.Environ(), "GOMAXPROCS="+gmps[g])
+				if eng.Race {
+					cmd.Env = append(cmd.Env, workerEnv(eng, 100+g*chunks+c)[1:]...)
+				}
 				if g%2 == 1 {
 					// the same operations in the opposite order, in a process that has parsed nothing else
-					cmd.Env = append(cmd.Env, "VERIF_C06_ORDER=reverse")
+					cmd.Env = append(cmd.Env, "VERIF_C06_ORDER=reverse", "VERIF_C18_ORDER=reverse")
 				}
 				out, err := cmd.Output()
 				results[g][c] = res{string(out), err}
@@ -730,9 +737,9 @@ func crossProcessDigests(eng *props.Engine, tier string, seed uint64, runs int, 
 				}
 				compared++
 				if f[1] != want {
-					sig, how := "C06:cross-process-digest", "for the same inputs and history"
+					sig, how := eng.Prop+":cross-process-digest", "for the same inputs and history"
 					if g%2 == 1 {
-						sig, how = "C06:order-of-calls-digest", "executing the same operations in the opposite order"
+						sig, how = eng.Prop+":order-of-calls-digest", "executing the same operations in the opposite order"
 					}
 					viols = append(viols, &violRec{Run: i, RunSeed: sim.RunSeed(seed, eng.Name, i), Class: "cross-process", Signature: sig,
 						Detail: fmt.Sprintf("run %d: a fresh process (GOMAXPROCS=%s) computed per-operation result digests %s, the worker computed %s %s", i, gmps[g], f[1], want, how)})
@@ -877,8 +884,11 @@ func replay(args []string) int {
 		for k, gmp := range []string{"1", "4", "16", "2"} {
 			cmd := exec.Command(self, "digest", rf.Property, rf.Tier, fmt.Sprint(rf.Seed), fmt.Sprint(rf.Run+1), fmt.Sprint(rf.Run), "sut")
 			cmd.Env = append(os.Environ(), "GOMAXPROCS="+gmp)
+			if eng.Race {
+				cmd.Env = append(cmd.Env, workerEnv(eng, 200+k)[1:]...)
+			}
 			if k%2 == 1 {
-				cmd.Env = append(cmd.Env, "VERIF_C06_ORDER=reverse")
+				cmd.Env = append(cmd.Env, "VERIF_C06_ORDER=reverse", "VERIF_C18_ORDER=reverse")
 			}
 			out, err := cmd.Output()
 			if err != nil {
